@@ -24,15 +24,16 @@ class DtExtract(Harness):
     def __init__(self, fn, unit, maxn):
         self.fn = fn; self.unit = unit; self.maxn = maxn
         self.name = f"C19.dt.{fn}.{unit}.n{maxn}"
-        self.bounds = {"elements": f"0..{maxn}", "unit": unit, "calling forms": "module function, .dt proxy, scalar"}
+        self.bounds = {"elements": f"0..{maxn}", "unit": unit, "calling forms": "module function, .dt proxy, scalar, .dt proxy of a reversed view after the proxy of the vector itself was used"}
         self.symbolic = ["ticks (years 1..9999) and NaT positions"]; self.choice_dims = ["length", "calling form"]
         self.goals = [f"dt.py:{fn}", "dt.py:_pull_int"]
     def build(self, ctx):
-        form = choice("form", ["module", "proxy", "scalar"])
+        form = choice("form", ["module", "proxy", "scalar", "proxy_derived"])
         n = choice("n", range(self.maxn + 1)) if form != "scalar" else 1
         x = mk_col(self.unit, n, "x", cls="Vector")
         inp = {"x": x, "fn": self.fn}
         if form == "proxy": inp["proxy"] = True
+        if form == "proxy_derived": inp["proxy"] = "derived"
         if form == "scalar":
             inp["scalar"] = True
             ctx.assume(x.cells[0] != INT64_MIN, note="scalar form: a non-missing datetime scalar")
@@ -55,6 +56,8 @@ class DtExtract(Harness):
         cl.append(("result is a Vector with one element per input element", T(isinstance(res, Arr) and res.cls == "Vector" and len(res) == n)))
         if not isinstance(res, Arr) or len(res) != n: return cl
         k = kind_of(res)
+        if inp.get("proxy") == "derived":
+            x = Arr(x.dtype, list(reversed(x.cells)), x.cls)       # the proxy of the reversed view answers for the reversed view
         for i in range(n):
             nat = x.cells[i] == INT64_MIN
             v, ok = num_of(res.cells[i], k)
